@@ -117,6 +117,10 @@ impl HistoryProp for P18 {
                 v.push(Act::Respond(i, Size::Large));
             }
         }
+        if self.all_pieces && sim.last_answered.is_some() {
+            // a misbehaving application is a server state too: a surplus response
+            v.push(Act::RespondAgain);
+        }
         v
     }
 
@@ -268,6 +272,52 @@ pub fn run(ctx: &mut Ctx) {
             }
             if let Some((k, d)) = differential(ctx, &dacts) {
                 ctx.rep.violation(&format!("C18:{}", k), d, hist::history_json(&dacts, vec![("family", J::s("differential"))]));
+            }
+        }
+    }
+    // ---- surplus responses (the application answers a request twice) at every point of a short conversation
+    let mut idx = 0u64;
+    for pre_polls in 0..3usize {
+        for drain_first in [false, true] {
+            for second_request in [false, true] {
+                for polls_after in 0..3usize {
+                    for nclients in 1..=2usize {
+                        idx += 1;
+                        if !ctx.mine(idx) {
+                            continue;
+                        }
+                        ctx.begin();
+                        ctx.rep.evaluations += 1;
+                        ctx.rep.count("histories_with_a_surplus_response");
+                        let mut acts = Vec::new();
+                        for c in 0..nclients {
+                            acts.push(Act::Connect(c));
+                        }
+                        acts.push(Act::Poll);
+                        acts.push(Act::Poll);
+                        acts.push(Act::Send(0, Piece::Get));
+                        acts.push(Act::Poll);
+                        acts.push(Act::Respond(0, Size::Small));
+                        for _ in 0..pre_polls {
+                            acts.push(Act::Poll);
+                        }
+                        if drain_first {
+                            acts.push(Act::Drain(0));
+                        }
+                        if second_request {
+                            acts.push(Act::Send(nclients - 1, Piece::Get));
+                        }
+                        acts.push(Act::RespondAgain);
+                        for _ in 0..polls_after {
+                            acts.push(Act::Poll);
+                        }
+                        let mut p = P18 { max_clients: 3, hostile: true, all_pieces: true };
+                        let out = hist::run_history(ctx, &mut p, &acts, true, false);
+                        if let Some((k, d)) = out.violation {
+                            ctx.rep.violation(&format!("C18:{}", k), d, hist::history_json(&acts, vec![]));
+                        }
+                    }
+                }
             }
         }
     }
